@@ -286,6 +286,10 @@ class MinFlowDecompCycles(walkmodel.AbstractWalkModelDiGraph):
         # flow leaving the sources; this is not the case if some edge carrying a flow value is ignored
         if any(self.G.has_edge(*e) and self.flow_attr in self.G.edges[e] for e in self.edges_to_ignore):
             return None
+        # ... and the flow leaving the sources is computed as the sum of (out-flow - in-flow) over the nodes, which is only
+        # right if every edge carries a flow value (not in node mode, where the connecting edges have none)
+        if any(self.flow_attr not in data for _, _, data in self.G.edges(data=True)):
+            return None
 
         min_gen_set_start_time = time.perf_counter()
         all_weights = list(set({self.G.edges[e][self.flow_attr] for e in self.G.edges() if self.flow_attr in self.G.edges[e]}))
